@@ -41,7 +41,10 @@ def strategy(kind):
         spec['contigs'] = [[c[0], 70000] for c in spec['contigs']]
         # pack near-by sites (radius>0 cases): shift some molecules by a few bases
         for m in spec['mols']:
+            m['site'] = min(m['site'], 69000)          # the contigs were shortened to 70 kb after the draw
             m['site'] += draw(st.sampled_from([0, 0, 0, 1, 2, 5]))
+        for e in spec['extras']:
+            e['pos'] = min(e['pos'], 69000)
         method = spec['method']
         run = {'method': method, 'hamming': draw(st.sampled_from([0, 0, 1, 2])),
                'radius': draw(st.sampled_from([0, 0, 3, 10])) if method == 'chic' else 0,
@@ -92,6 +95,28 @@ def is_nontrivial(truth):
     return multi and shared
 
 
+def grouping_is_unique(truth, run):
+    """True when the admissible grouping is unique: within every (cell, contig, strand) the relation 'sites within the radius
+    and UMIs within the distance' between truth classes is transitive. Otherwise (a UMI or a site chain a-b-c with a and c
+    incompatible) which molecule the middle class joins depends on the order of equal-coordinate reads, which tagging changes."""
+    h, r = run['hamming'], run['radius']
+    if h == 0 and r == 0:
+        return True
+    by = collections.defaultdict(set)
+    for t in truth.values():
+        if t['cls'] == 'valid':
+            k = t['key']
+            by[(k[0], k[1], k[2])].add((k[3], k[4]))
+    for group in by.values():
+        g = sorted(group)
+        link = {a: {b for b in g if abs(a[0] - b[0]) <= r and hd(a[1], b[1]) <= h} for a in g}
+        for a in g:
+            for b in link[a]:
+                if not link[b] <= link[a] | {a}:
+                    return False
+    return True
+
+
 def check_soundness(mols, truth, run, out, where):
     """mols: list of lists of serials (valid fragments only)"""
     h, r = run['hamming'], run['radius']
@@ -127,6 +152,8 @@ def eval_iterator(case):
     from singlecellmultiomics.molecule import MoleculeIterator
     out = Outcome()
     spec, run = case['spec'], case['run']
+    if any(m['site'] > spec['contigs'][m['tid']][1] - 200 for m in spec['mols']):
+        return out.label('out of domain: molecule beyond the end of its contig')
     contigs, records, truth = libsim.realize(spec)
     d = os.path.join(scratch_dir(), 'c06i_%d' % os.getpid())
     shutil.rmtree(d, ignore_errors=True)
@@ -256,6 +283,8 @@ def observe(bam):
 def eval_tagger(case):
     out = Outcome()
     spec, run = case['spec'], case['run']
+    if any(m['site'] > spec['contigs'][m['tid']][1] - 200 for m in spec['mols']):
+        return out.label('out of domain: molecule beyond the end of its contig')
     contigs, records, truth = libsim.realize(spec)
     if run['history'] == 'preset':
         import random
@@ -345,7 +374,9 @@ def eval_tagger(case):
                 out.bad('tagger:TF-inconsistent', 'molecule %s: TF %r size %d cap %r' % (mi, tfs, n, run['cap']))
         check_soundness(mol_serials, truth, run, out, 'tagger')
         # ---- histories
-        if len(outs) == 2 and not run['cap']:   # with a cap the overflowing fragments depend on input order: not claimed
+        if len(outs) == 2 and not run['cap'] and not grouping_is_unique(truth, run):
+            out.label('history not compared: the admissible grouping is not unique (UMI / site chain)')
+        elif len(outs) == 2 and not run['cap']:   # with a cap the overflowing fragments depend on input order: not claimed
             a, b = outs
             ka = {(n if not n.startswith('Is:') else n, m, p): v for (n, m, p), v in a.items()}
             if set(ka) != set(b):
